@@ -65,13 +65,31 @@ class Dispatch(PathFacts):
                 return set(f[3])
         return set()
 
-    def _effect(self, node):
+    def _effect(self, node, depth=0):
         for c in walk_local(node):
             if isinstance(c, ast.Call):
                 if isinstance(c.func, ast.Attribute) and c.func.attr in ("append", "extend") and isinstance(c.func.value, ast.Name) and c.func.value.id in self.sinks:
                     return True
                 if call_name(c) in EFFECT_CALLS:
                     return True
+                # a local closure (or module helper) that performs the effect on every path: `_parse_into_setup(snippet)`
+                if isinstance(c.func, ast.Name) and depth < 3:
+                    encl = self.pm.enclosing_func(self.loop)
+                    for cand in ([f"{encl.name}.{c.func.id}"] if encl is not None else []) + [c.func.id]:
+                        f_ = self.pm.funcs.get(cand)
+                        if f_ is not None and f_ is not encl and self._always_effect(f_.body, depth + 1):
+                            return True
+        return False
+
+    def _always_effect(self, body, depth):
+        """every path through this statement list performs the effect (straight-line prefix suffices)"""
+        for st in body:
+            if isinstance(st, (ast.If, ast.While, ast.For, ast.Try, ast.With)):
+                return False
+            if isinstance(st, ast.Return) and st.value is None:
+                return False
+            if self._effect(st, depth):
+                return True
         return False
 
     def gen(self, stmt, alt):
@@ -115,6 +133,54 @@ def _conds(alt):
     return {(f[1], f[2]) for f in alt if isinstance(f, tuple) and f[0] == "c"}
 
 
+def regexes_tested(pm, node, subst=None, depth=0):
+    """the module-level regex constants whose `.match(...)` the expression is a disjunction of, however it is spelled:
+    `A.match(x) or B.match(x)`, `any(p.match(x) for p in TABLE)`, or a one-expression helper taking the table; None when the
+    expression is anything else"""
+    subst = subst or {}
+    if depth > 4:
+        return None
+    if isinstance(node, ast.BoolOp) and isinstance(node.op, ast.Or):
+        out = set()
+        for v in node.values:
+            sub = regexes_tested(pm, v, subst, depth + 1)
+            if sub is None:
+                return None
+            out |= sub
+        return out
+
+    def table_of(e):
+        e = subst.get(e.id, e) if isinstance(e, ast.Name) else e
+        if isinstance(e, ast.Name) and e.id in pm.consts:
+            e = pm.consts[e.id]
+        if isinstance(e, (ast.Tuple, ast.List)) and e.elts and all(isinstance(x, ast.Name) for x in e.elts):
+            return [x.id for x in e.elts]
+        return None
+
+    if isinstance(node, ast.Call) and isinstance(node.func, ast.Attribute) and node.func.attr in ("match", "fullmatch") and isinstance(node.func.value, ast.Name):
+        nm = node.func.value.id
+        tgt = subst.get(nm)
+        if isinstance(tgt, ast.Name):
+            nm = tgt.id
+        return {nm} if nm in pm.consts else None
+    if isinstance(node, ast.Call) and call_name(node) == "any" and len(node.args) == 1 and isinstance(node.args[0], (ast.GeneratorExp, ast.ListComp)):
+        g = node.args[0]
+        if len(g.generators) == 1 and not g.generators[0].ifs and isinstance(g.generators[0].target, ast.Name):
+            tbl = table_of(g.generators[0].iter)
+            e = g.elt
+            if tbl and isinstance(e, ast.Call) and isinstance(e.func, ast.Attribute) and e.func.attr in ("match", "fullmatch") and isinstance(e.func.value, ast.Name) and e.func.value.id == g.generators[0].target.id:
+                return set(tbl)
+        return None
+    if isinstance(node, ast.Call) and isinstance(node.func, ast.Name) and node.func.id in pm.funcs and not node.keywords:
+        f_ = pm.funcs[node.func.id]
+        body = [st for st in f_.body if not (isinstance(st, ast.Expr) and isinstance(st.value, ast.Constant))]
+        if len(body) == 1 and isinstance(body[0], ast.Return) and body[0].value is not None and len(f_.args.args) == len(node.args):
+            sub = {a.arg: v for a, v in zip(f_.args.args, node.args)}
+            sub = {k_: (subst.get(v_.id, v_) if isinstance(v_, ast.Name) else v_) for k_, v_ in sub.items()}
+            return regexes_tested(pm, body[0].value, sub, depth + 1)
+    return None
+
+
 def classify_silent(pm, alt, line_vars):
     """Return the whitelisted kind of a silent exit, or None."""
     cs = _conds(alt)
@@ -131,8 +197,8 @@ def classify_silent(pm, alt, line_vars):
             node = ast.parse(t, mode="eval").body
         except SyntaxError:
             continue
-        leaves = node.values if isinstance(node, ast.BoolOp) and isinstance(node.op, ast.Or) else [node]
-        if all(isinstance(l, ast.Call) and isinstance(l.func, ast.Attribute) and l.func.attr == "match" and isinstance(l.func.value, ast.Name) and l.func.value.id.startswith("RE_IMPORT_") for l in leaves) and leaves:
+        names = regexes_tested(pm, node)
+        if names and all(n_.startswith("RE_IMPORT_") for n_ in names):
             return "import-filter"
     if "matched:RE_TARGET_CALL" in texts or "matched:RE_TARGET_INLINE" in texts:
         return "target-directive"
